@@ -144,6 +144,23 @@ func vfsOver(base afero.Fs, backend string, gate *fsgate.Gate) filesystem.FS {
 	return filesystem.NewVirtualFileSystem(fsgate.New(base, "op", gate), t, filesystem.IdentityPathConverterFunc)
 }
 
+// patternSet: the pattern of the scenario as the caller passes it.  Every other call passes it next to a second pattern that
+// matches nothing (the meaning is the same), after OTHER pattern sets have been used in this process that read alike when their
+// elements are strung together (blank- or comma-separated) but mean something else - a listing of the same directory, which
+// changes nothing: what an earlier call compiled must not be what a later call uses.
+var patternCalls atomic.Int64
+
+func patternSet(fs filesystem.FS, tdir, pattern string) []string {
+	if patternCalls.Add(1)%2 == 1 {
+		return []string{pattern}
+	}
+	const never = "zz-never-a-name"
+	for _, sep := range []string{" ", ",", ", "} {
+		_, _ = fs.LsWithExclusionPatterns(tdir, pattern+sep+never)
+	}
+	return []string{pattern, never}
+}
+
 func runOp(fs filesystem.FS, op, tdir, link, pattern string) string {
 	ctx := context.Background()
 	ch := make(chan error, 1)
@@ -165,9 +182,9 @@ func runOp(fs filesystem.FS, op, tdir, link, pattern string) string {
 		case "GarbageCollectAged":
 			ch <- fs.GarbageCollectWithContext(ctx, tdir, time.Hour)
 		case "RmExcluding":
-			ch <- fs.RemoveWithContextAndExclusionPatterns(ctx, tdir, pattern)
+			ch <- fs.RemoveWithContextAndExclusionPatterns(ctx, tdir, patternSet(fs, tdir, pattern)...)
 		case "CleanDirExcluding":
-			ch <- fs.CleanDirWithContextAndExclusionPatterns(ctx, tdir, pattern)
+			ch <- fs.CleanDirWithContextAndExclusionPatterns(ctx, tdir, patternSet(fs, tdir, pattern)...)
 		}
 	}()
 	select {
